@@ -155,7 +155,8 @@ def check_group(g):
                             other = "GATTACAT"
                             with open(path, "w") as f:
                                 f.write(">c\n" + "".join(t[p:p + 4] + "\n" for p in range(0, len(t), 4)) + ">b\n" + other + "\n")
-                            genome = bnp.Genome.from_file(path)
+                            # label order = file order (c, b) or sorted (b, c): the contig is found by its name either way
+                            genome = bnp.Genome.from_file(path, sort_names=(len(t) % 2 == 0))
                             gs = genome.read_sequence()
                             rot = [(k + 1) % len(ex) for k in range(len(ex))]
                             names, st, en, sd, wantf = [], [], [], [], []
